@@ -77,11 +77,21 @@ def regression_cases():
         e.update(pol)
         return e
     st = dict(op="start", repl=True)
+
+    def batch(items):
+        return ("m", [(b"batch", ("a", items))])
     out = [
         # {m: cpu, columns, m: disk}: the caller may write cpu only; every consumer must read the LAST m
         ("duplicate-m-allowed-first", [st, msg(C5._col(("s", b"cpu"), T0, 1, second_m=("s", b"disk"))), dict(op="flush")] + L.RESTART),
         ("duplicate-m-allowed-last", [st, msg(C5._col(("s", b"disk"), T0, 2, second_m=("s", b"cpu"))), dict(op="flush")] + L.RESTART),
         ("duplicate-m-map16", [st, msg(C5._col(("s", b"cpu"), T0, 3, width="16", second_m=("s", b"mem"))), dict(op="flush")] + L.RESTART),
+        # records two and three list levels deep: every nested measurement must be checked (and the
+        # buffer refuses nested lists)
+        ("nested-array-batch-batch-forbidden", [st, msg(("a", [batch([batch([C5._col(("s", b"secret"), T0, 7)])])])), dict(op="flush")] + L.RESTART),
+        ("nested-batch-batch-batch-forbidden", [st, msg(batch([batch([batch([C5._col(("s", b"secret"), T0, 8)])]), C5._col(("s", b"cpu"), T0, 9)])),
+                                                dict(op="flush")] + L.RESTART),
+        ("nested-array-batch-batch-allowed", [st, msg(("a", [C5._col(("s", b"cpu"), T0, 10), batch([batch([C5._col(("s", b"cpu"), T0, 11)])])])),
+                                              dict(op="flush")] + L.RESTART),
         ("duplicate-columns", [st, msg(("m", [(b"columns", ("m", [(b"time", ("a", [("i", T0)])), (b"a", ("a", [("i", 1)]))])),
                                                (b"m", ("s", b"cpu")),
                                                (b"columns", ("m", [(b"time", ("a", [("i", T0 + 9)])), (b"b", ("a", [("i", 2)]))]))])),
@@ -155,7 +165,7 @@ def gen_case(rng, cid):
             req = dict(kind="msg", hdb=db or None, payload=item if rng.random() < 0.5 else ("a", [item]), shape="col")
         else:
             req = L.gen_request(rng, db or None, routing_p=0.7, wild_ts=False, mixed_p=0.0, int_m_p=0.05, meas_pool=pool,
-                                wire_p=0.25, dup_p=0.2)
+                                wire_p=0.25, dup_p=0.2, nested_p=0.12)
         if req["kind"] == "lp" and not db:
             req["hdb"] = None
         evs.append(dict(op="write", allow_all=False, allow=allow, req=req))
@@ -256,7 +266,7 @@ def run(res, tier, seed):
         "acks": {str(k): sum(1 for i in supported for a in obs[i]["acks"] if a == k) for k in (200, 204, 400, 403, 500)},
         "requests": {k: sum(1 for i in supported for e in cases[i]["events"] if e["op"] == "write" and
                             (e["req"]["ep"] if e["req"]["kind"] == "lp" else "msg:" + e["req"].get("shape", "?")) == k)
-                     for k in ("v1", "v2", "simple", "import", "msg:col", "msg:row", "msg:batch", "msg:array")},
+                     for k in ("v1", "v2", "simple", "import", "msg:col", "msg:row", "msg:batch", "msg:array", "msg:nested")},
         "with_replica": sum(1 for i in supported if cases[i].get("profile") == "repl"),
         "with_crash_recovery": sum(1 for i in supported if any(e["op"] == "recover" for e in cases[i]["events"])),
         "permission_checks_recorded": sum(len(c) for i in supported for c in obs[i]["checked"]),
